@@ -11264,6 +11264,47 @@ let read_one_liner s =
      | _ :: _ -> None)
   | None -> None
 
+(** val gen_cram_block :
+    mode -> n list -> n list list -> n list list -> n -> block **)
+
+let gen_cram_block m cmd conts lines code =
+  BTest (cmd, conts,
+    (app (map (fun l -> BExp (expectation_line m l)) lines)
+      (if N.eqb code N0 then [] else (BCode (dec code)) :: [])))
+
+(** val gen_cram_doc :
+    mode -> n list option -> n list -> n list list -> n list list -> n ->
+    block list **)
+
+let gen_cram_doc m title cmd conts lines code =
+  app (match title with
+       | Some t -> (BTitle t) :: []
+       | None -> []) ((gen_cram_block m cmd conts lines code) :: [])
+
+(** val gen_body : mode -> n list list -> n -> bline list **)
+
+let gen_body m lines code =
+  app (map (fun l -> BExp (expectation_line m l)) lines)
+    (if N.eqb code N0 then [] else (BCode (dec code)) :: [])
+
+(** val md_block_text : n list -> n list list -> bline list -> n list list **)
+
+let md_block_text cmd conts body =
+  app ((app p_DOLLAR cmd) :: [])
+    (app (map (fun x -> app p_GT x) conts) (map render_body body))
+
+(** val gen_md_doc :
+    mode -> n list option -> n list -> n list list -> n list list -> n ->
+    elem list **)
+
+let gen_md_doc m title cmd conts lines code =
+  app
+    (match title with
+     | Some t -> (EHeading ((S O), t)) :: (EBlank :: [])
+     | None -> []) ((EScrut ((S
+    (max_bt (S (S O)) (md_block_text cmd conts (gen_body m lines code)))),
+    None, [], (Some ((cmd, conts), (gen_body m lines code))), [])) :: [])
+
 (** val make_exp : bool -> bool -> (nat -> bool) -> nat exp **)
 
 let make_exp o m f =
